@@ -725,12 +725,22 @@ impl HttpContext {
                         // header used by Envoy/HAProxy/most LBs. Preserve the
                         // client-supplied value verbatim — overwriting it
                         // breaks end-to-end request tracing.
-                        has_x_request_id = true;
-                        self.x_request_id = header
-                            .val
-                            .data_opt(buf)
-                            .and_then(|data| from_utf8(data).ok())
-                            .map(ToOwned::to_owned);
+                        if has_x_request_id {
+                            // exactly one request id reaches the backend: the first
+                            // client-supplied one wins, later duplicates are elided
+                            header.elide();
+                        } else {
+                            has_x_request_id = true;
+                            self.x_request_id = header
+                                .val
+                                .data_opt(buf)
+                                .and_then(|data| from_utf8(data).ok())
+                                .map(ToOwned::to_owned);
+                        }
+                    } else if compare_no_case(key, self.sozu_id_header.as_bytes()) {
+                        // the correlation header is proxy-owned: a client-supplied
+                        // field with that name must not reach the backend next to ours
+                        header.elide();
                     } else {
                         #[cfg(feature = "opentelemetry")]
                         if compare_no_case(key, b"traceparent") {
